@@ -7,7 +7,7 @@ use std::borrow::Borrow;
 use std::fmt::Debug;
 use std::fs::read;
 use std::io::ErrorKind as IoErrorKind;
-use std::path::{Path, PathBuf};
+use std::path::{Component, Path, PathBuf};
 use std::sync::Arc;
 
 /// A resource loader using local versions of the resources.
@@ -83,6 +83,19 @@ impl Loader for LocalLoader {
         for (ns, path) in &self.caches {
             if iri.starts_with(ns.as_str()) {
                 let subpath = Path::new(&iri[ns.len()..]);
+                // never leave the local cache directory:
+                // `..` would climb out of it, and an absolute subpath would *replace* `path` in `join`
+                if subpath.components().any(|c| {
+                    matches!(
+                        c,
+                        Component::ParentDir | Component::RootDir | Component::Prefix(_)
+                    )
+                }) {
+                    return Err(LoaderError::UnsupportedIri(
+                        iri_buf(iri),
+                        "path traversal outside of the local cache".into(),
+                    ));
+                }
                 let resource_path: PathBuf = path.join(subpath);
                 return match read(resource_path) {
                     Ok(data) => Ok((data, self.ctype(iri))),
